@@ -2,7 +2,6 @@
 # usage: tools/mkscratch.sh <name>   -> /tmp/pa/<name>/lean (copy of /verif/lean incl. build output; remembers the sources it started from)
 #        tools/mkscratch.sh --collect <name>  -> lists source files the agent created or changed (relative to its starting point)
 #        tools/mkscratch.sh --merge <name>    -> copies exactly those files back into /verif/lean (never CassisModel.lean: add imports by hand)
-set -e
 if [ "$1" = "--collect" ] || [ "$1" = "--merge" ]; then
   mode="$1"; n="$2"; src="/tmp/pa/$n/lean"; base="/tmp/pa/$n/base"
   cd "$src"
@@ -25,5 +24,5 @@ rm -rf "/tmp/pa/$n"
 mkdir -p "/tmp/pa/$n/base"
 cp -a /verif/lean "/tmp/pa/$n/lean"
 # the sources as they were when the copy was made (without build output)
-(cd /verif/lean && find CassisModel CassisModel.lean Driver.lean -type f \( -name '*.lean' -o -name '*.md' -o -name '*.proposed' \) -print0 | cpio -0pdm "/tmp/pa/$n/base" 2>/dev/null)
+(cd /verif/lean && rsync -a --include='*/' --include='*.lean' --include='*.md' --include='*.proposed' --exclude='*' CassisModel CassisModel.lean Driver.lean "/tmp/pa/$n/base/")
 echo "/tmp/pa/$n/lean"
